@@ -4,7 +4,7 @@ import itertools
 from harness import ir
 
 
-def single(cfg, name, args, mode="normal", inplace=False, alias=False):
+def single(cfg, name, args, mode="normal", inplace=False, alias=False, prefail=None):
     """args: list of (type, kind, value); mode: normal | ignore | guard<levels>, one of 0, 1, p per nesting level, e.g. guard0, guard10, guard1p.
     An argument of type B whose value is not 0/1 is a DECLARED boolean holding garbage: it is created as an integer input
     and converted with LinCombBool(x) right before the operation, inside the innermost guard (possible only where errors
@@ -36,6 +36,11 @@ def single(cfg, name, args, mode="normal", inplace=False, alias=False):
         pre.append(["op", "toB", [i]])
         refs = [n + nguards + j if r == i else r for r in refs]
     body = pre + [["op", name, refs] + (["inplace"] if inplace else [])]
+    if prefail is not None:
+        # a refused operation on the first traced operand, caught, right before the operation under test
+        tr = [r for r in refs if args[r if r < len(args) else 0][0] in "IBF"] if not nonbool else []
+        if tr:
+            body = [["fail", prefail, tr[0]]] + body
     if mode == "ignore":
         cfg["ignore"] = True
         stmts += body
